@@ -20,3 +20,35 @@ package types
 //@                        && isErr(sub.res1, coreda.ErrBlobSizeOverLimit) ==> res.Code == coreda.StatusTooBig
 //@   ensures [other-error] sub.res1 != nil ==> res.Code != coreda.StatusSuccess
 //@   ensures [blobs] sub.arg2 == data
+
+// ---- validation -----------------------------------------------------------------------
+
+//@ pred SigOK(sh) := Signed(pkraw(sh.Signer.PubKey.val), Payload(HdrOf(sh)), val(sh.Signature))
+
+//@ func (sh *SignedHeader) ValidateBasic() (err)
+//@   property C01 C03
+//@   observe prov := call signatureProvider
+//@   observe dprov := call DefaultSignaturePayloadProvider
+//@   ensures [basic] err == nil ==> (len(sh.ProposerAddress) > 0 && len(sh.Signature) > 0
+//@                       && val(sh.ProposerAddress) == val(sh.Signer.Address) && SigOK(sh) && sh.Signer.PubKey != nil)
+//@   ensures [complete] len(sh.ProposerAddress) > 0 && len(sh.Signature) > 0 && val(sh.ProposerAddress) == val(sh.Signer.Address) && SigOK(sh)
+//@                       ==> err == nil || (prov && prov.res1 != nil) || (dprov && dprov.res1 != nil)
+
+//@ pred DataMatchesHeader(header, data) := (data.Metadata != nil ==> (header.BaseHeader.ChainID == data.Metadata.ChainID
+//@                       && header.BaseHeader.Height == data.Metadata.Height && TimeOfU64(header.BaseHeader.Time) == TimeOfU64(data.Metadata.Time)))
+//@                       && val(header.DataHash) == CommitTxs(TxsId(data.Txs))
+//@ pred TimeOfU64(u) := ite(u < 9223372036854775808, u, u - 18446744073709551616)
+
+//@ func Validate(header, data) (err)
+//@   property C01 C02
+//@   requires [non-nil] header != nil && data != nil
+//@   ensures [matches] err == nil <==> DataMatchesHeader(header, data)
+
+//@ func (d *Data) Size() (n)
+//@   trusted
+//@   ensures [size] n >= 0
+
+//@ spec func HashData(Int, DMeta) Bytes
+//@ func (d *Data) Hash() (r)
+//@   trusted
+//@   ensures [hash] val(r) == HashData(TxsId(d.Txs), DMetaOf(d)) && len(r) == 32
